@@ -365,6 +365,21 @@ def run(ctx, out):
         phases[name] = round(time.time() - t0, 2)
         t0 = time.time()
     E, T = load_tables()
+    # application data types that merely SHARE A NAME with the built-in ones (an application package may well declare
+    # its own 'EDouble' printing two decimals, its own day-only 'EDate' ...): the converters of a data type belong to
+    # that data type object; creating these must not change what the built-in ones do
+    impostors = [
+        E.EDataType('EDouble', float, from_string=lambda s: round(float(s), 1), to_string=lambda v: '%.2f' % v),
+        E.EDataType('EFloat', float, from_string=lambda s: 0.0, to_string=lambda v: '0'),
+        E.EDataType('EInt', int, from_string=lambda s: int(s) % 100, to_string=lambda v: str(v % 100)),
+        E.EDataType('ELong', int, from_string=lambda s: 0, to_string=lambda v: '0'),
+        E.EDataType('EString', str, from_string=lambda s: s.strip().lower(), to_string=lambda v: v.upper()),
+        E.EDataType('EBoolean', bool, from_string=lambda s: True, to_string=lambda v: 'yes'),
+        E.EDataType('EDate', object, from_string=lambda s: s[:10], to_string=lambda v: str(v)[:10]),
+        E.EDataType('EBigDecimal', object, from_string=lambda s: None, to_string=lambda v: '?'),
+    ]
+    out.coverage['namesake_data_types_created_first'] = len(impostors)
+    ctx._keep_impostors = impostors
     m = common.Model()
     N = 4000 if thorough else 250
     stats = {'corr': 0, 'oracle': 0, 'by_type': {}, 'by_region': {}, 'outside_image': 0, 'distinct': set(),
